@@ -26,6 +26,8 @@
   0,1,2 users · 3 the funding contract (programmable adversary) · 4 the fee collector · 5 the router ·
   6 + k vault k. A failed operation returns `none`: CosmWasm reverts everything. Zero-amount native
   transfers fail, zero-amount cw20 transfers succeed (as in WW/Model/Vault.lean).
+  Asset index `nv` is a native denom that has no vault (`kind nv` must be 0): nothing but coins ATTACHED
+  to a message (`Op.attach`) ever moves it.
 -/
 import WW.Cw.Arith
 import WW.Gen.Constants
@@ -183,26 +185,67 @@ inductive Op where
   | collect (j : Nat)               -- vault j CollectProtocolFees
   | xnext (who initiator : Nat) (loans : List (Nat × Nat)) (payload : List RAct)  -- router NextLoan sent directly
   | xcomplete (who initiator : Nat) (loaned : List (Nat × Nat))                   -- router CompleteLoan sent directly
+  /-- the message `op` sent with `n` native coins ATTACHED that it does not ask for, paid by its sender
+      `who` (0..3): coins of asset `sel` (`sel < nv`: the native denom of vault `sel`'s asset — nobody
+      holds such a coin when that asset is a cw20; `sel = nv`: a denom no vault knows). The bank moves
+      them to the RECEIVING contract before the handler runs and the whole transaction — the coins
+      included — reverts when anything fails. No handler of the router looks at `info.funds`
+      (`flash_loan.rs` sends `funds: vec![]` on to the vault), nor does a vault's `CollectProtocolFees`:
+        * router messages: the coins are the router's. Of a BORROWED asset they are part of the balance
+          `CompleteLoan` reads and leave with the remaining proceeds to the initiator; of any other asset
+          they stay with the router (and go to whoever next borrows that asset through it);
+        * vault `j`'s `CollectProtocolFees`: a donation to vault `j` (account `6 + j`) of asset `sel`;
+        * an empty coin (`n = 0`) is refused by the bank. -/
+  | attach (who sel n : Nat) (op : Op)
 deriving Repr
 
-def step (c : Cfg) (s : St) : Op → Option St
-  | .rloan who assets payload =>
+/-- the account of the contract an operation's message is sent to (5 the router, `6 + j` vault `j`);
+    `none`: a plain transfer, not an execute message -/
+def Op.recv : Op → Option Nat
+  | .rloan _ _ _ => some 5
+  | .rfund _ _ _ => none
+  | .collect j => some (6 + j)
+  | .xnext _ _ _ _ => some 5
+  | .xcomplete _ _ _ => some 5
+  | .attach _ _ _ op => op.recv
+
+/-- the message itself, without the coins attached to it -/
+def Op.core : Op → Op
+  | .attach _ _ _ op => op.core
+  | op => op
+
+/-- `n` stray coins of asset `sel` paid by `who` arrive at the receiving contract `dst` -/
+def arrive (c : Cfg) (s : St) (who sel n dst : Nat) : Option St :=
+  if who ≥ 4 ∨ n = 0 ∨ sel > c.nv ∨ dst ≥ 6 + c.nv then none else
+  if c.kind sel ≠ 0 then none else        -- a cw20 asset has no coin (the unknown denom `nv` is native)
+  move c s sel who dst n
+
+def step (c : Cfg) : St → Op → Option St
+  | s, .rloan who assets payload =>
     if who ≥ 4 then none else
     match assets with
     | [] => some s                                    -- no message at all: the payload is NOT run
     | [e] => chainGo c (fun t => rruns c t payload) who [e] s [e]
     | _ :: _ :: _ => none                             -- NestedFlashLoansDisabled
-  | .rfund who j n => if who ≥ 4 ∨ j ≥ c.nv then none else move c s j who 5 n
-  | .collect j =>
+  | s, .rfund who j n => if who ≥ 4 ∨ j ≥ c.nv then none else move c s j who 5 n
+  | s, .collect j =>
     if j ≥ c.nv then none else
     if s.pend j = 0 then some s else
     match move c s j (6 + j) 4 (s.pend j) with
     | none => none
     | some s1 => some { s1 with pend := upd s1.pend j 0 }
   -- NextLoan: the sender must be the factory's vault for the named asset; accounts 0..3 never are
-  | .xnext _ _ _ _ => none
+  | _, .xnext _ _ _ _ => none
   -- CompleteLoan: the sender must be the router itself
-  | .xcomplete _ _ _ => none
+  | _, .xcomplete _ _ _ => none
+  -- stray coins: they arrive first, then the message runs; all or nothing
+  | s, .attach who sel n op =>
+    match op.recv with
+    | none => none
+    | some dst =>
+      match arrive c s who sel n dst with
+      | none => none
+      | some s1 => step c s1 op
 
 /-- a failed transaction leaves the state untouched -/
 def apply (c : Cfg) (s : St) (op : Op) : St := (step c s op).getD s
